@@ -41,6 +41,7 @@ inductive Res where
   | undef
   | bool (b : Bool)
   | throwType
+  | throwScript              -- an exception thrown by a scripted argument's valueOf / toString
   | panic                    -- a Go run-time panic (nil dereference, slice bounds) escapes
 deriving DecidableEq, Repr, Inhabited
 
@@ -532,5 +533,140 @@ def SObj.defineX (o : SObj) (name : List Nat) : Res :=
 
 /-- the string a receiver of these observers wraps -/
 def recvString (E : Env) : Recv → List Nat := thisString E
+
+/-! ## Order of conversions.  Operands (receiver and arguments) may be objects whose valueOf and toString are one
+     scripted function: every call is logged and returns the next scripted primitive or throws.  A method is a
+     PLAN: which operand is converted next, given the conversions done so far, and how the result is computed
+     from the converted primitives.  Model plans follow the Go statement order, Spec plans the ES5 step order. -/
+
+inductive Outcome where
+  | ret (v : Val)
+  | throw
+deriving DecidableEq, Repr, Inhabited
+
+inductive Operand where
+  | prim (v : Val)
+  | obj (outs : List Outcome)       -- the k-th conversion yields outs[k] (the last one repeats)
+deriving DecidableEq, Repr, Inhabited
+
+/-- operand 0 is the receiver, operand k+1 is argument k -/
+structure Run where
+  recv : Operand
+  args : List Operand
+deriving Repr
+
+def Run.operand (r : Run) (who : Nat) : Operand :=
+  match who with
+  | 0 => r.recv
+  | k + 1 => r.args.getD k (.prim .undef)
+
+/-- the conversions performed so far, oldest first: (operand, primitive obtained) -/
+abbrev Done := List (Nat × Val)
+
+def Operand.isObj : Operand → Bool | .obj _ => true | _ => false
+/-- Value.IsUndefined on the raw operand -/
+def Operand.isUndef : Operand → Bool | .prim .undef => true | _ => false
+
+/-- the primitive operand `who` stands for after the conversions in `d` (the latest conversion wins; a
+    primitive operand stands for itself; an object not yet converted is represented by null) -/
+def valueOf (r : Run) (d : Done) (who : Nat) : Val :=
+  match r.operand who with
+  | .prim v => v
+  | .obj _ => match (d.reverse.find? (fun e => e.1 == who)) with
+    | some e => e.2
+    | none => .null
+
+structure Plan where
+  next : Run → Done → Option Nat          -- the operand converted next, `none` when the method is ready to finish
+  finish : Run → Done → Res
+
+/-- run a plan: log of conversion calls (operand numbers of OBJECT operands, in call order) and the result -/
+def exec (p : Plan) (r : Run) : Nat → Done → List Nat → List Nat × Res
+  | 0, d, log => (log, p.finish r d)
+  | fuel + 1, d, log =>
+    match p.next r d with
+    | none => (log, p.finish r d)
+    | some who =>
+      match r.operand who with
+      | .prim v => exec p r fuel (d ++ [(who, v)]) log
+      | .obj outs =>
+        let k := (d.filter (fun e => e.1 == who)).length
+        match outs.getD (min k (outs.length - 1)) .throw with
+        | .throw => (log ++ [who], .throwScript)
+        | .ret v => exec p r fuel (d ++ [(who, v)]) (log ++ [who])
+
+def Plan.run (p : Plan) (r : Run) : List Nat × Res := exec p r (2 * r.args.length + 4) [] []
+
+/-- has operand `who` been converted? -/
+def did (d : Done) (who : Nat) : Bool := d.any (fun e => e.1 == who)
+
+/-- the receiver and argument list the pure method functions see after the conversions -/
+def recvOf (E : Env) (r : Run) (d : Done) : Recv :=
+  match r.recv with
+  | .prim v => .val v
+  | .obj _ => .obj (toStr E (valueOf r d 0))
+def argsOf (r : Run) (d : Done) : List Val := (List.range r.args.length).map fun k => valueOf r d (k + 1)
+
+/-- convert the listed operands in this order, each once, skipping those the predicate excludes -/
+def inOrder (order : List Nat) (d : Done) : Option Nat := order.find? (fun who => !did d who)
+
+/-- the receiver is usable: not undefined / null (checkObjectCoercible precedes every conversion) -/
+def recvOK (r : Run) : Bool := match r.recv with | .prim .undef => false | .prim .null => false | _ => true
+
+/-- is argument k supplied and, as a raw value, not undefined? -/
+def present (r : Run) (k : Nat) : Bool := decide (k < r.args.length) && !(r.operand (k + 1)).isUndef
+
+/-- strings.Index based String.prototype.replace for a string search value and a `$`-free string replacement
+    (builtin_string.go builtinStringReplace: regexp.QuoteMeta(search), first match only) -/
+def replaceStr (target search repl : List Nat) : List Nat :=
+  match indexBytes target search with
+  | none => target
+  | some i => target.take i ++ repl ++ target.drop (i + search.length)
+
+def replace (E : Env) (r : Recv) (args : List Val) : Res :=
+  if !coercible r then .throwType else
+  .str (U (replaceStr (thisString E r) (toStr E (argAt args 0)) (toStr E (argAt args 1))))
+
+/-- the pure function behind each method name -/
+def pureMethod (m : String) : Option (Env → Recv → List Val → Res) :=
+  match m with
+  | "charAt" => some charAt | "charCodeAt" => some charCodeAt | "concat" => some concat
+  | "indexOf" => some indexOf | "lastIndexOf" => some lastIndexOf | "slice" => some slice
+  | "substring" => some substring | "substr" => some substr | "split" => some split
+  | "trim" => some trim | "localeCompare" => some localeCompare | "toLowerCase" => some toLowerCase
+  | "toUpperCase" => some toUpperCase | "replace" => some replace
+  | _ => none
+
+/-- the order in which the Go code converts its operands (statement order of each builtin) -/
+def goOrder (E : Env) (m : String) (r : Run) (d : Done) : Option Nat :=
+  if !recvOK r && m != "substr" then none else      -- substr (Annex B.2.3) has no coercibility check
+  let all := List.range (r.args.length + 1)
+  match m with
+  | "charAt" | "charCodeAt" => inOrder [1, 0] d                 -- idx := Argument(0).number() precedes This.string()
+  | "concat" => inOrder all d
+  | "indexOf" => inOrder ([0, 1] ++ (if r.args.length ≥ 2 then [2] else [])) d
+  | "lastIndexOf" =>
+    -- `if length == 0 { return … }` precedes `start := ArgumentList[1].number()`
+    let empty := did d 0 && (thisString E (recvOf E r d)).isEmpty
+    inOrder ([0, 1] ++ (if present r 1 ∧ !empty then [2] else [])) d
+  | "localeCompare" => inOrder [0, 1] d
+  | "slice" | "substring" | "substr" =>
+    inOrder ([0, 1] ++ (if r.args.length ≠ 1 ∧ present r 1 then [2] else [])) d
+  | "split" =>
+    -- target, then the limit (if defined); `limit == 0` returns before the separator is converted
+    let lim0 := present r 1 && did d 2 && decide (toUint32 E.c5 (valueOf r d 2) = 0)
+    inOrder ([0] ++ (if present r 1 then [2] else []) ++ (if present r 0 ∧ !lim0 then [1] else [])) d
+  | "replace" =>
+    -- target, searchValue, then the match; replaceValue.string() only inside `found != nil`
+    let found := did d 0 && did d 1 &&
+      (indexBytes (thisString E (recvOf E r d)) (toStr E (valueOf r d 1))).isSome
+    inOrder ([0, 1] ++ (if found then [2] else [])) d
+  | _ => inOrder [0] d
+
+def goPlan (E : Env) (m : String) : Plan where
+  next := goOrder E m
+  finish := fun r d => match pureMethod m with
+    | some f => f E (recvOf E r d) (argsOf r d)
+    | none => .undef
 
 end OttoVerif.C09
